@@ -70,14 +70,93 @@ theorem joinSp_concat (fs : List (List Char)) (f : List Char) (h : fs ≠ []) :
 
 /-! ## `strings.Fields` -/
 
+theorem goWs_append_space (a b : List Char) (cur : List Char) :
+    splitWs.go (a ++ ' ' :: b) cur = splitWs.go a cur ++ splitWs.go b [] := by
+  have hsp : Fen.isSpace ' ' = true := by decide
+  induction a generalizing cur with
+  | nil => simp [splitWs.go, hsp]
+  | cons c a ih =>
+    by_cases hc : Fen.isSpace c = true
+    · simp [splitWs.go, hc, ih]
+    · simp [splitWs.go, hc, ih]
+
+theorem splitWs_append_space (a b : List Char) : splitWs (a ++ ' ' :: b) = splitWs a ++ splitWs b :=
+  goWs_append_space a b []
+
+theorem splitWs_space_cons (t : List Char) : splitWs (' ' :: t) = [] :: splitWs t := by
+  have hsp : Fen.isSpace ' ' = true := by decide
+  simp [splitWs, splitWs.go, hsp]
+
 theorem fields_nil : fields [] = [] := by
-  simp [fields, Fen.splitSpaces, Fen.splitSpaces.go]
+  simp [fields, splitWs, splitWs.go]
 
 theorem fields_space_cons (t : List Char) : fields (' ' :: t) = fields t := by
-  simp [fields, splitSpaces_space_cons]
+  simp [fields, splitWs_space_cons]
 
 theorem fields_append_space (a b : List Char) : fields (a ++ ' ' :: b) = fields a ++ fields b := by
-  simp [fields, splitSpaces_append_space]
+  simp [fields, splitWs_append_space]
+
+theorem Word.no_space {w : List Char} (h : Word w) : ' ' ∉ w := fun hm =>
+  absurd (h.2 ' ' hm) (by decide)
+
+/-- Where the blank is the only white space, `strings.Fields` and `strings.Split(_, " ")` cut at the same places. -/
+theorem goWs_eq_go (s cur : List Char) (h : ∀ c ∈ s, Fen.isSpace c = true → c = ' ') :
+    splitWs.go s cur = Fen.splitSpaces.go s cur := by
+  have hsp : Fen.isSpace ' ' = true := by decide
+  induction s generalizing cur with
+  | nil => rfl
+  | cons c s ih =>
+    have ih' := fun cur => ih cur (fun d hd => h d (by simp [hd]))
+    by_cases hc : c = ' '
+    · subst hc; simp [splitWs.go, Fen.splitSpaces.go, hsp, ih']
+    · have : Fen.isSpace c = false := by
+        cases hx : Fen.isSpace c with
+        | false => rfl
+        | true => exact absurd (h c (by simp) hx) hc
+      simp [splitWs.go, Fen.splitSpaces.go, hc, this, ih']
+
+theorem go_mem_cur (s cur : List Char) (x : Char) (hx : x ∈ cur) : ∃ w ∈ Fen.splitSpaces.go s cur, x ∈ w := by
+  induction s generalizing cur with
+  | nil => exact ⟨cur.reverse, by simp [Fen.splitSpaces.go], by simpa using hx⟩
+  | cons c s ih =>
+    by_cases hc : c = ' '
+    · exact ⟨cur.reverse, by simp [Fen.splitSpaces.go, hc], by simpa using hx⟩
+    · obtain ⟨w, hw, hxw⟩ := ih (c :: cur) (by simp [hx])
+      exact ⟨w, by simpa [Fen.splitSpaces.go, hc] using hw, hxw⟩
+
+/-- Every character other than the blank lies in one of the pieces. -/
+theorem go_mem (s cur : List Char) (x : Char) (hx : x ∈ s) (hne : x ≠ ' ') : ∃ w ∈ Fen.splitSpaces.go s cur, x ∈ w := by
+  induction s generalizing cur with
+  | nil => simp at hx
+  | cons c s ih =>
+    by_cases hc : c = ' '
+    · have hxs : x ∈ s := by
+        rcases List.mem_cons.1 hx with h | h
+        · exact absurd (h.trans hc) hne
+        · exact h
+      obtain ⟨w, hw, hxw⟩ := ih [] hxs
+      exact ⟨w, by simp [Fen.splitSpaces.go, hc, hw], hxw⟩
+    · rcases List.mem_cons.1 hx with h | h
+      · subst h
+        obtain ⟨w, hw, hxw⟩ := go_mem_cur s (x :: cur) x (by simp)
+        exact ⟨w, by simpa [Fen.splitSpaces.go, hc] using hw, hxw⟩
+      · obtain ⟨w, hw, hxw⟩ := ih (c :: cur) h
+        exact ⟨w, by simpa [Fen.splitSpaces.go, hc] using hw, hxw⟩
+
+/-- If the pieces between the blanks are words, `strings.Fields` returns exactly them. -/
+theorem fields_eq_splitSpaces (s : List Char) (h : ∀ w ∈ Fen.splitSpaces s, Word w) : fields s = Fen.splitSpaces s := by
+  have h1 : splitWs s = Fen.splitSpaces s := by
+    refine goWs_eq_go s [] (fun c hc hsp => ?_)
+    apply Classical.byContradiction
+    intro hne
+    obtain ⟨w, hw, hcw⟩ := go_mem s [] c hc hne
+    have := (h w hw).2 c hcw
+    rw [hsp] at this
+    exact absurd this (by decide)
+  unfold fields
+  rw [h1, List.filter_eq_self]
+  intro w hw
+  simpa using (h w hw).1
 
 /-! ## `continuation` -/
 
@@ -122,27 +201,23 @@ theorem continuation_eq_some (last line : List Char) (rest : List (List Char)) :
     · intro h; simp at h
     · rintro ⟨_, t, ht, _⟩; exact absurd ⟨t, ht⟩ h2'
 
-/-- If every word of the new line is non-empty (single spaces), the extra words are exactly the
-    words of the new line after those of the previous one. -/
+/-- If the pieces of the new line between blanks are words (single blanks, no other white space), the extra
+    words are exactly the words of the new line after those of the previous one. -/
 theorem continuation_words (last line : List Char) (rest : List (List Char))
     (h : continuation last line = some rest)
-    (hne : ∀ w ∈ Fen.splitSpaces (Fen.trimSpace line), w ≠ []) :
+    (hne : ∀ w ∈ Fen.splitSpaces (Fen.trimSpace line), Word w) :
     Fen.splitSpaces (Fen.trimSpace line) = Fen.splitSpaces (Fen.trimSpace last) ++ rest := by
   obtain ⟨_, t, ht, hsh, hr⟩ := (continuation_eq_some _ _ _).1 h
   rcases hsh with h0 | ⟨t', h0⟩
   · subst h0; simp [hr, fields_nil, ht]
   · subst h0
     rw [ht, splitSpaces_append_space] at hne
-    rw [ht, splitSpaces_append_space, hr, fields_space_cons, fields]
-    congr 1
-    symm
-    rw [List.filter_eq_self]
-    intro w hw
-    simpa using hne w (by simp [hw])
+    rw [ht, splitSpaces_append_space, hr, fields_space_cons,
+      fields_eq_splitSpaces t' (fun w hw => hne w (by simp [hw]))]
 
 theorem argsOf_continuation (last line : List Char) (rest : List (List Char))
     (h : continuation last line = some rest)
-    (hne : ∀ w ∈ Fen.splitSpaces (Fen.trimSpace line), w ≠ []) :
+    (hne : ∀ w ∈ Fen.splitSpaces (Fen.trimSpace line), Word w) :
     argsOf line = argsOf last ++ rest := by
   unfold argsOf
   rw [continuation_words last line rest h hne]
